@@ -133,6 +133,7 @@ func gen(t *rapid.T) scen.Case {
 	c.DupVol = rapid.IntRange(0, 3).Draw(t, "dup") == 0
 	c.DirName = rapid.SampledFrom(scen.DirNames).Draw(t, "dirname")
 	c.Index = rapid.SampledFrom(scen.IndexNames).Draw(t, "index")
+	c.HighExpVol = rapid.IntRange(0, 5).Draw(t, "highexp") == 0
 	c.SymlinkVols = rapid.IntRange(0, 5).Draw(t, "symlink") == 0
 	if rapid.IntRange(0, 4).Draw(t, "stale") == 0 {
 		c.StaleNRec = rapid.IntRange(1, 9).Draw(t, "stalenrec")
